@@ -21,6 +21,9 @@ use mithril_common::messages::CertificateMessage;
 pub enum LieOn {
     /// requests for the hash FIELD of certificate #id
     Hash(usize),
+    /// requests for the `previous_hash` of certificate #id (also when no certificate has that hash:
+    /// a dangling link)
+    PrevOf(usize),
     /// every request
     Any,
 }
@@ -57,18 +60,13 @@ pub struct Served {
     pub transport_error: bool,
 }
 
-/// What the harness may neutralise for the counterfactual attribution of known findings.
-#[derive(Clone, Debug, Default)]
-pub struct Neutralise {
-    /// replace by the truthful answer every lie that serves one of these certificates
-    pub serve_ids: BTreeSet<usize>,
-}
-
 pub struct UniverseView {
     /// wire JSON of every certificate
     pub json: Vec<String>,
     /// hash FIELD of every certificate
     pub hash_field: Vec<String>,
+    /// `previous_hash` of every certificate
+    pub previous_hash: Vec<String>,
     /// truthful store: content hash -> certificate (only certificates whose hash field is true)
     pub by_content: BTreeMap<String, usize>,
 }
@@ -80,7 +78,6 @@ struct State {
     occ: BTreeMap<String, u32>,
     log: Vec<Served>,
     last_served: Option<usize>,
-    neutralise: Neutralise,
 }
 
 pub struct Provider {
@@ -91,10 +88,6 @@ pub struct Provider {
 impl Provider {
     pub fn new(view: UniverseView) -> Arc<Self> {
         Arc::new(Provider { view, state: Mutex::new(State::default()) })
-    }
-
-    pub fn set_neutralise(&self, n: Neutralise) {
-        self.state.lock().unwrap().neutralise = n;
     }
 
     pub fn begin_call(&self, lies: Vec<Lie>) {
@@ -127,6 +120,7 @@ impl Provider {
         let on = match &lie.on {
             LieOn::Any => true,
             LieOn::Hash(id) => self.view.hash_field[*id] == hash,
+            LieOn::PrevOf(id) => self.view.previous_hash[*id] == hash,
         };
         on && lie.occ.is_none_or(|n| n == occ)
     }
@@ -165,9 +159,7 @@ impl Provider {
                 Answer::NotFound => (Some(l.kind), None, false),
                 Answer::TransportError => (Some(l.kind), None, true),
                 Answer::Serve(id) => {
-                    if st.neutralise.serve_ids.contains(&id) {
-                        (None, truthful, false)
-                    } else if Some(id) == truthful {
+                    if Some(id) == truthful {
                         // a "lie" that happens to be the truth is not a lie
                         (None, truthful, false)
                     } else {
@@ -179,11 +171,6 @@ impl Provider {
                     _ => (None, truthful, false),
                 },
             },
-        };
-        // certificates a neutralisation forbids are not served from the store either
-        let id = match id {
-            Some(i) if st.neutralise.serve_ids.contains(&i) => None,
-            other => other,
         };
         if id.is_some() {
             st.last_served = id;
@@ -254,8 +241,6 @@ struct CacheLog {
     /// vouchers written during a call that ended in a rejection (and not re-written since by an
     /// accepted call)
     from_rejected_calls: BTreeSet<String>,
-    /// counterfactual: behave as if those vouchers had been rolled back
-    hide_vouchers_of_rejected_calls: bool,
 }
 
 /// Recording decorator around the REAL `MemoryCertificateVerifierCache`.
@@ -265,10 +250,10 @@ pub struct RecordingCache {
 }
 
 impl RecordingCache {
-    pub fn new(hide_vouchers_of_rejected_calls: bool) -> Arc<Self> {
+    pub fn new() -> Arc<Self> {
         Arc::new(RecordingCache {
             inner: MemoryCertificateVerifierCache::new(chrono::TimeDelta::days(365)),
-            log: Mutex::new(CacheLog { hide_vouchers_of_rejected_calls, ..Default::default() }),
+            log: Mutex::new(CacheLog::default()),
         })
     }
 
@@ -324,12 +309,6 @@ impl CertificateVerifierCache for RecordingCache {
     }
 
     async fn get_previous_hash(&self, certificate_hash: &str) -> MithrilResult<Option<String>> {
-        {
-            let log = self.log.lock().unwrap();
-            if log.hide_vouchers_of_rejected_calls && log.from_rejected_calls.contains(certificate_hash) {
-                return Ok(None);
-            }
-        }
         let res = self.inner.get_previous_hash(certificate_hash).await?;
         if let Some(prev) = &res {
             let mut log = self.log.lock().unwrap();
